@@ -656,6 +656,9 @@ def _check_case(ctx: Ctx, c: dict):
                 if "error" in r2:
                     ctx.violation("the dumped configuration is rejected as a config file", c, {"error": r2["error"], "dump": text[:600]},
                                   key="toml-roundtrip:file-rejected")
+                    # the failed constructor left the child without a terminal: give the remaining dump modes the original one back
+                    if "error" in run_impl(sc):
+                        break
                 else:
                     after2 = {n: tok(v) for n, v in r2["config"]["values"].items()}
                     diff = {n: [before[n], after2.get(n)] for n in before if before[n] != after2.get(n)}
@@ -739,6 +742,56 @@ def component_cases(names, quick: bool):
                 for layer in text_layers:
                     yield {"k": "alt", "opt": name, "text": text, "layer": layer, "component": "item-text"}
                 yield {"k": "envtext", "opt": name, "text": text}
+
+
+def precise_floats(rng) -> list:
+    """Finite doubles whose shortest decimal form needs up to 17 significant digits, at every magnitude: a dump that keeps fewer
+    digits (a fixed number of decimals, `%g`, `%f`, a short `round`) cannot give them back.  Compared bit-exactly after dump -> load
+    (`tok` carries a float as its exact rational value, i.e. float.hex precision)."""
+    import math
+    inf = math.inf
+    vals = [1 / 3, 2 / 3, 1 / 7, 0.1 + 0.2, 0.1 * 3, 1.1 * 1.1, math.pi, math.e, math.sqrt(2), 1 - 1e-16, 1 + 2 ** -52,
+            # tiny: nothing left after a few decimals; subnormal and smallest normal
+            2.5e-7, 1e-7 / 3, 1.2345678901234567e-5, 4.9e-10, 1e-300 / 3, 2.2250738585072014e-308, 5e-324, 3e-320,
+            # huge: beyond integer precision, largest finite
+            1e22 / 3, 123456789.12345679, 1e15 + 0.3, 2.0 ** 53 + 2, 1e100 / 7, 1.7976931348623157e308,
+            # exponent-form boundaries of repr (1e16 / 1e-5) and their neighbours
+            1e16, 9999999999999998.0, 1e-5, 9.999999999999999e-6, 0.0001]
+    # the two neighbours of round decimals (one ulp away: 17 digits needed, and any rounding collapses them onto the decimal)
+    for dec_ in (0.1, 0.25, 0.5, 1.0, 1.5, 2.0, 3.0, 10.0, 0.001, 100.0, 1e-6, 65536.0, 1e9):
+        vals += [math.nextafter(dec_, inf), math.nextafter(dec_, -inf)]
+    vals += [-v for v in (1 / 3, 0.1 + 0.2, 2.5e-7, math.nextafter(1.0, inf), 1e22 / 3, 0.5)]
+    # random: uniform in everyday ranges, random magnitude, random mantissa bits
+    for _ in range(12):
+        vals.append(rng.uniform(0.05, 8))
+        vals.append(rng.random() * 10.0 ** rng.randint(-12, 12))
+        vals.append(math.ldexp(rng.getrandbits(53) | (1 << 52), rng.randint(-80, 20) - 52))
+    return vals
+
+
+def float_roundtrip_cases(names, rng, quick: bool):
+    """Every float option carries every value of `precise_floats` at least once (rotating assignment, all float options set in
+    one configuration), given natively through kwargs / config_overrides / the file layer as a bare literal or through the
+    environment as repr() text; the configuration must survive dump -> load in every dump mode."""
+    fopts = [n for n in names if OPTS[n].split("|")[0] == "float"]
+    if not fopts:
+        return
+    vals = precise_floats(rng)
+    reps = 1 if quick else 3
+    for rep in range(reps):
+        for i in range(len(vals)):
+            layer = ["kwargs", "overrides", "file", "env"][(i + rep) % 4]
+            items = [[n, vals[(i + j * 7 * (rep + 1)) % len(vals)] if j else vals[i]] for j, n in enumerate(fopts)]
+            sc = {"file": None, "env": {}, "kwargs": [], "overrides": None}
+            if layer == "env":
+                sc["env"] = {n: repr(v) for n, v in items}
+            elif layer == "file":
+                sc["file"] = items
+                sc["file_via"] = "arg" if i % 2 else "env"
+            else:
+                sc[layer] = items
+            yield {"k": "toml", "sc": sc, "modes": ["plain", "provenance", "skip_default"] if (i + rep) % 3 == 0 else ["plain"],
+                   "float_family": True}
 
 
 def subsets():
@@ -879,6 +932,8 @@ def cases(ctx: Ctx):
     for i in range(2 if q else 12):
         sc = {"file": [["scale", 2.5], ["max_cols", 33]] if i % 2 else None, "env": {"max_rows": "7"} if i % 3 else {}, "kwargs": [], "overrides": None}
         yield {"k": "toml", "sc": sc, "modes": ["cli"]}
+    # 7b. TOML round trip of float options whose values need all 17 significant digits (bit-exact comparison)
+    yield from float_roundtrip_cases(names, rng, q)
 
 
 def run(ctx: Ctx):
@@ -891,7 +946,11 @@ def run(ctx: Ctx):
                 "lists: one item of each wrong type in each position): accepted natively => same text accepted everywhere with the same value "
                 "and the configuration survives dump -> load, wrong-type component => rejected naming the option; alternative spellings per parser; wrong-type values per class and layer; unknown keys; multi-option "
                 "multi-layer scenarios; TOML dump/load in three dump modes, through the file layer and through `python -m tupimage.cli "
-                "dump-config`. distinct = canonical JSON of the case; non-trivial = every case")
+                "dump-config`; FLOAT options through the round trip with values that need up to 17 significant digits (1/3, 0.1+0.2, pi, "
+                "2.5e-7, subnormal / smallest normal / largest finite, 2^53+2, both one-ulp neighbours of 13 round decimals, the repr "
+                "exponent-form boundaries 1e16 / 1e-5, negative, random mantissas at magnitudes 2^-80..2^20 and 1e-12..1e12), every value on "
+                "every float option, given through kwargs / config_overrides / file literal / environment text, compared bit-exactly (exact "
+                "rational of the double) after dump -> load. distinct = canonical JSON of the case; non-trivial = every case")
     try:
         corpus_dir = Path(__file__).resolve().parent.parent / "corpus" / "C17"
         if corpus_dir.is_dir():
